@@ -132,64 +132,96 @@ theorem negAttr_iff (a : Attrs) :
     NegAttr a ↔ (∃ v, a.get? "mass" = some v ∧ isNeg v = true) ∨ (∃ v, a.get? "rad" = some v ∧ isNeg v = true) := by
   simp [NegAttr]
 
+/-- the inner loop of `_validate_atom_attributes` on one atom -/
+theorem validate_inner (a : Attrs) :
+    (forIn (pyIter ["mass", "rad"]) PUnit.unit (fun (key : String) (_ : PUnit) => (do
+        let c ← (if pyContains key a = true then (do let x ← (getItem a key : M Val); pure (pyLt x (0 : Int))) else pure false : M Bool)
+        if c = true then (do throw (Err.custom "MolfileParserException"); pure (ForInStep.yield PUnit.unit))
+        else pure (ForInStep.yield PUnit.unit) : M (ForInStep PUnit))) : M PUnit) =
+      if NegAttr a then parserError else .ok PUnit.unit := by
+  have hstep : ∀ (k : String), (if pyContains k a = true then (do let x ← (getItem a k : M Val); pure (pyLt x (0 : Int))) else pure false : M Bool) =
+      .ok (match a.get? k with | some v => isNeg v | none => false) := by
+    intro k
+    cases hg : a.get? k with
+    | none => simp [pyContains_dict, Dict.contains, hg]
+    | some v => simp [pyContains_dict, Dict.contains, getItem, GetItem.getItem, toKey, ToKey.toKey, hg, isNeg]
+  simp only [pyIter_list, List.forIn_cons, List.forIn_nil, hstep, ok_bind, negAttr_iff]
+  cases hm : a.get? "mass" with
+  | none =>
+    cases hr : a.get? "rad" with
+    | none => simp
+    | some w => by_cases hw : isNeg w = true <;> simp [hw, parserError]
+  | some v =>
+    by_cases hv : isNeg v = true
+    · simp [hv, parserError]
+    · cases hr : a.get? "rad" with
+      | none => simp [hv]
+      | some w => by_cases hw : isNeg w = true <;> simp [hv, hw, parserError]
+
 /-- **contract of `_validate_atom_attributes`** (exact): rejects iff some atom has a negative mass or rad -/
 theorem _validate_atom_attributes_eq (env : DepEnv) (A : Dict Int Attrs) :
     Tucan.molfile_reader._validate_atom_attributes env A = if NegMolecule A then parserError else .ok () := by
-  unfold Tucan.molfile_reader._validate_atom_attributes NegMolecule
-  generalize A.items = items
-  induction items with
-  | nil => simp
-  | cons p r ih =>
-    obtain ⟨k, a⟩ := p
-    simp only [List.forIn_cons, pyIter_list, pyContains_dict, Dict.contains, List.exists_mem_cons_iff] at ih ⊢
-    by_cases hn : NegAttr a
-    · rw [if_pos (Or.inl hn)]
-      rw [negAttr_iff] at hn
-      cases hm : a.get? "mass" with
-      | some v =>
-        by_cases hv : isNeg v = true
-        · have hv' : pyLt v (0 : Int) = true := hv
-          simp [getItem, GetItem.getItem, toKey, ToKey.toKey, hm, hv', parserError]
-        · rcases hn with ⟨w, hw, hwn⟩ | ⟨w, hw, hwn⟩
-          · rw [hm] at hw; cases hw; exact absurd hwn hv
-          · have hv' : pyLt v (0 : Int) = false := by simpa [isNeg] using hv
-            have hw' : pyLt w (0 : Int) = true := hwn
-            simp [getItem, GetItem.getItem, toKey, ToKey.toKey, hm, hv', hw, hw', parserError]
-      | none =>
-        rcases hn with ⟨w, hw, hwn⟩ | ⟨w, hw, hwn⟩
-        · rw [hm] at hw; cases hw
-        · have hw' : pyLt w (0 : Int) = true := hwn
-          simp [getItem, GetItem.getItem, toKey, ToKey.toKey, hm, hw, hw', parserError]
-    · have hn' := hn
-      rw [negAttr_iff, not_or] at hn'
-      have h1 : ∀ v, a.get? "mass" = some v → pyLt v (0 : Int) = false := by
-        intro v hv; by_contra hc; exact hn'.1 ⟨v, hv, by simpa [isNeg] using hc⟩
-      have h2 : ∀ v, a.get? "rad" = some v → pyLt v (0 : Int) = false := by
-        intro v hv; by_contra hc; exact hn'.2 ⟨v, hv, by simpa [isNeg] using hc⟩
-      have hstep : ∀ (k : String), (∀ v, a.get? k = some v → pyLt v (0 : Int) = false) →
-          (if (a.get? k).isSome = true then (do pure (pyLt (← (getItem a k : M Val)) (0 : Int))) else pure false : M Bool) = .ok false := by
-        intro k hk
-        cases hg : a.get? k with
-        | none => simp
-        | some v => simp [getItem, GetItem.getItem, toKey, ToKey.toKey, hg, hk v hg]
-      simp only [hstep "mass" h1, hstep "rad" h2, ok_bind, Bool.false_eq_true, if_false, pure_eq_ok] 
-      simp only [hn, false_or]
-      exact ih
+  unfold Tucan.molfile_reader._validate_atom_attributes
+  simp only [validate_inner]
+  by_cases h : NegMolecule A
+  · rw [if_pos h]
+    unfold NegMolecule at h
+    generalize A.items = items at h
+    induction items with
+    | nil => simp at h
+    | cons p r ih =>
+      obtain ⟨k, a⟩ := p
+      simp only [List.forIn_cons]
+      by_cases hn : NegAttr a
+      · simp [hn, parserError]
+      · simp only [hn, if_false, ok_bind, pure_eq_ok]
+        apply ih
+        obtain ⟨q, hq, hqn⟩ := h
+        rcases List.mem_cons.mp hq with rfl | hq
+        · exact absurd hqn hn
+        · exact ⟨q, hq, hqn⟩
+  · rw [if_neg h]
+    unfold NegMolecule at h
+    generalize A.items = items at h
+    induction items with
+    | nil => rfl
+    | cons p r ih =>
+      obtain ⟨k, a⟩ := p
+      have hn : ¬ NegAttr a := fun hn => h ⟨(k, a), by simp, hn⟩
+      simp only [List.forIn_cons, hn, if_false, ok_bind, pure_eq_ok]
+      exact ih (fun ⟨p, hp, hq⟩ => h ⟨p, by simp [hp], hq⟩)
 
 /-- **contract of `_validate_bonds`** (exact): rejects iff some bond key has identical endpoints -/
 theorem _validate_bonds_eq (env : DepEnv) (B : Dict (Int × Int) Attrs) :
     Tucan.molfile_reader._validate_bonds env B = if SelfBonded B then parserError else .ok () := by
-  unfold Tucan.molfile_reader._validate_bonds SelfBonded
-  generalize B.keys = ks
-  induction ks with
-  | nil => simp
-  | cons b r ih =>
-    obtain ⟨u, v⟩ := b
-    simp only [List.forIn_cons, List.exists_mem_cons_iff] at ih ⊢
-    by_cases huv : u = v
-    · simp [pyEq, PyCmp.eq, huv, parserError]
-    · simp only [pyEq, PyCmp.eq, huv, decide_false, Bool.false_eq_true, if_false, false_or, pure_eq_ok, ok_bind]
-      exact ih
+  unfold Tucan.molfile_reader._validate_bonds
+  by_cases h : SelfBonded B
+  · rw [if_pos h]
+    unfold SelfBonded at h
+    generalize B.keys = ks at h
+    induction ks with
+    | nil => simp at h
+    | cons b r ih =>
+      obtain ⟨u, v⟩ := b
+      simp only [List.forIn_cons]
+      by_cases huv : u = v
+      · simp [pyEq, PyCmp.eq, huv, parserError]
+      · simp only [pyEq, PyCmp.eq, huv, decide_false, Bool.false_eq_true, if_false, pure_eq_ok, ok_bind]
+        apply ih
+        obtain ⟨q, hq, hqn⟩ := h
+        rcases List.mem_cons.mp hq with rfl | hq
+        · exact absurd hqn huv
+        · exact ⟨q, hq, hqn⟩
+  · rw [if_neg h]
+    unfold SelfBonded at h
+    generalize B.keys = ks at h
+    induction ks with
+    | nil => rfl
+    | cons b r ih =>
+      obtain ⟨u, v⟩ := b
+      have huv : ¬ u = v := fun e => h ⟨(u, v), by simp, e⟩
+      simp only [List.forIn_cons, pyEq, PyCmp.eq, huv, decide_false, Bool.false_eq_true, if_false, pure_eq_ok, ok_bind]
+      exact ih (fun ⟨p, hp, hq⟩ => h ⟨p, by simp [hp], hq⟩)
 
 /-- what the reader makes of the atom and bond dictionaries: rejected if some atom has a negative mass
 or rad or some bond joins an atom to itself, otherwise the graph built by `graph_from_molecule` -/
@@ -643,17 +675,6 @@ theorem splice_renderLines (L : List (List Str)) : ∀ (sp : Nat → Spell) (res
     · rw [renderLines, List.append_assoc, splice_renderLine _ _ _ (hd 0 ts rfl), hs]
       cases splice rest <;> rfl
 
-/-- a version line (last word `V3000`) is never taken for a continued line -/
-theorem notCont_of_lastWord (h : Str) (hv : lastWord h = py!"V3000") : ¬ Cont h := by
-  rintro ⟨-, he⟩
-  simp only [endswith, List.isSuffixOf_iff_suffix] at he
-  obtain ⟨x, rfl⟩ := he
-  have hr : rstrip (x ++ ['-']) = x ++ ['-'] := rstrip_of_getLast _ (by simp; decide)
-  have : (lastWord (x ++ ['-'])).getLast? = some '-' := by
-    simp [lastWord, hr, afterLastBlank]
-  rw [hv] at this
-  revert this; decide
-
 /-! ### characters of the physical lines -/
 
 theorem mem_gapped (c : Char) : ∀ (ts : List Str) (gs : List Nat), c ∈ gapped ts gs → c = ' ' ∨ ∃ t ∈ ts, c ∈ t := by
@@ -777,13 +798,11 @@ def logical (C : Ctab) (D : Dress) : List (List Str) :=
 def fileLines (C : Ctab) (D : Dress) : List Str :=
   [D.h0, D.h1, D.h2, D.h3] ++ (renderLines D.spell (logical C D) ++ D.tail)
 
-/-- side conditions of the renderer (all of them format rules, except `hdr`, see the report) -/
+/-- side conditions of the renderer (all of them format rules). The header lines 0–2 are subject to no
+condition at all: since the repair of `_tokenize_lines` the four header lines are never spliced. -/
 structure Dress.OK (D : Dress) (C : Ctab) : Prop where
   /-- the version line ends with the word `V3000` -/
   ver : lastWord D.h3 = py!"V3000"
-  /-- no header line looks like the first part of a continued V30 line (starts with `M  V30 ` and ends
-  with `-`): the reader would splice it with the next line -/
-  hdr : ∀ h ∈ [D.h0, D.h1, D.h2], ¬ Cont h
   /-- nor does a line after the connection table -/
   tail : ∀ l ∈ D.tail, ¬ Cont l
   /-- tokens are non-empty and free of whitespace -/
@@ -861,23 +880,15 @@ theorem ctabAt_tokenized (C : Ctab) (D : Dress) (hcA : parseInt D.cntA = .ok (C.
 /-- the tokenizer on a rendered file: header and trailing lines are tokenized as they are, every logical
 V30 line yields `M V30` and its tokens — for every spelling -/
 theorem tokenize_fileLines (env : DepEnv) (fuel : Nat) (C : Ctab) (D : Dress) (hok : D.OK C)
-    (hfuel : (fileLines C D).length + 1 ≤ fuel) :
+    (hfuel : ((fileLines C D).drop 4).length + 1 ≤ fuel) :
     Tucan.molfile_v3000_reader._tokenize_lines env fuel (fileLines C D) =
       .ok ([D.h0, D.h1, D.h2, D.h3].map tokens ++
         ((logical C D).map (fun ts => py!"M" :: py!"V30" :: ts) ++ D.tail.map tokens)) := by
-  rw [tokenize_lines_ok env fuel _ hfuel]
+  have hdrop : (fileLines C D).drop 4 = renderLines D.spell (logical C D) ++ D.tail := rfl
+  have htake : (fileLines C D).take 4 = [D.h0, D.h1, D.h2, D.h3] := rfl
+  rw [tokenize_lines_ok env fuel _ hfuel, hdrop, htake]
   obtain ⟨texts, ht, hs⟩ := splice_renderLines (logical C D) D.spell D.tail hok.nodash hok.clean
-  have h0 := hok.hdr D.h0 (by simp)
-  have h1 := hok.hdr D.h1 (by simp)
-  have h2 := hok.hdr D.h2 (by simp)
-  have h3 := notCont_of_lastWord D.h3 hok.ver
-  have : splice (fileLines C D) = .ok ([D.h0, D.h1, D.h2, D.h3] ++ (texts ++ D.tail)) := by
-    unfold fileLines
-    simp only [List.cons_append, List.nil_append]
-    rw [splice_notCont _ _ h0, splice_notCont _ _ h1, splice_notCont _ _ h2, splice_notCont _ _ h3, hs,
-      splice_all_notCont _ hok.tail]
-    rfl
-  rw [this]
+  rw [hs, splice_all_notCont _ hok.tail]
   simp [ht]
 
 /-- **deliverable 3, connection-table level (C07)**: on the physical lines of any rendering of the
@@ -886,7 +897,7 @@ continuation cut points, the further V30 lines after the bond block and the trai
 reader returns the meaning of the connection table (or rejects exactly as the meaning does) -/
 theorem graph_attributes_fileLines (env : DepEnv) (fuel : Nat) (C : Ctab) (D : Dress) (hok : D.OK C)
     (hA : ∀ a ∈ C.atoms, a.Shape) (hB : ∀ b ∈ C.bonds, b.Shape)
-    (hfuel : (fileLines C D).length + 1 ≤ fuel) :
+    (hfuel : ((fileLines C D).drop 4).length + 1 ≤ fuel) :
     Tucan.molfile_v3000_reader.graph_attributes_from_molfile_v3000 env fuel (fileLines C D) =
       ctabMeaning env C.atoms C.bonds :=
   Contracts.V3000.graph_attributes_from_molfile_v3000_eq env fuel _ _ (tokenize_fileLines env fuel C D hok hfuel)
@@ -895,15 +906,14 @@ theorem graph_attributes_fileLines (env : DepEnv) (fuel : Nat) (C : Ctab) (D : D
 /-- the value of the whole reader on a V3000 connection table -/
 def fileMeaning (env : DepEnv) (C : Ctab) : M Graph := do
   let AB ← ctabMeaning env C.atoms C.bonds
-  let gR ← Tucan.graph_utils.graph_from_molecule env AB.1 AB.2
-  pure gR.1
+  molGraph env AB
 
 /-- **deliverable 3, text level**: any text whose lines are a rendering of the connection table, with
 `V3000` as the last word of the version line, is read as the meaning of the connection table -/
 theorem graph_from_molfile_text_v3000 (env : DepEnv) (fuel : Nat) (text : Str) (C : Ctab) (D : Dress)
     (hlines : splitlines text = fileLines C D) (hok : D.OK C)
     (hA : ∀ a ∈ C.atoms, a.Shape) (hB : ∀ b ∈ C.bonds, b.Shape)
-    (hfuel : (fileLines C D).length + 1 ≤ fuel) :
+    (hfuel : ((fileLines C D).drop 4).length + 1 ≤ fuel) :
     Tucan.molfile_reader.graph_from_molfile_text env fuel text = fileMeaning env C := by
   rw [graph_from_molfile_text_eq]
   unfold readSpec fileMeaning
@@ -932,7 +942,7 @@ trailing blanks, the cut points, the other V30 lines, the trailing lines or the 
 theorem graph_from_molfile_text_render (env : DepEnv) (fuel : Nat) (sep : Str) (hsep : IsSep sep)
     (C : Ctab) (D : Dress) (hok : D.OK C) (hnb : D.NoBreaks C)
     (hA : ∀ a ∈ C.atoms, a.Shape) (hB : ∀ b ∈ C.bonds, b.Shape)
-    (hfuel : (fileLines C D).length + 1 ≤ fuel) :
+    (hfuel : ((fileLines C D).drop 4).length + 1 ≤ fuel) :
     Tucan.molfile_reader.graph_from_molfile_text env fuel (join sep (fileLines C D ++ [[]])) = fileMeaning env C :=
   graph_from_molfile_text_v3000 env fuel _ C D
     (splitlines_join_terminated sep hsep _ (noBreak_fileLines C D hnb)) hok hA hB hfuel
@@ -942,7 +952,7 @@ theorem graph_from_molfile_text_render' (env : DepEnv) (fuel : Nat) (sep : Str) 
     (C : Ctab) (D : Dress) (hok : D.OK C) (hnb : D.NoBreaks C)
     (hA : ∀ a ∈ C.atoms, a.Shape) (hB : ∀ b ∈ C.bonds, b.Shape)
     (hlast : (fileLines C D).getLast? ≠ some [])
-    (hfuel : (fileLines C D).length + 1 ≤ fuel) :
+    (hfuel : ((fileLines C D).drop 4).length + 1 ≤ fuel) :
     Tucan.molfile_reader.graph_from_molfile_text env fuel (join sep (fileLines C D)) = fileMeaning env C :=
   graph_from_molfile_text_v3000 env fuel _ C D
     (by rw [splitlines_join sep hsep _ (noBreak_fileLines C D hnb), dropFinalEmpty_of_ne _ hlast]) hok hA hB hfuel
@@ -954,7 +964,7 @@ theorem graph_from_molfile_text_dress_irrelevant (env : DepEnv) (fuel : Nat) (se
     (hsep : IsSep sep) (hsep' : IsSep sep') (C : Ctab) (D D' : Dress)
     (hok : D.OK C) (hok' : D'.OK C) (hnb : D.NoBreaks C) (hnb' : D'.NoBreaks C)
     (hA : ∀ a ∈ C.atoms, a.Shape) (hB : ∀ b ∈ C.bonds, b.Shape)
-    (hfuel : (fileLines C D).length + 1 ≤ fuel) (hfuel' : (fileLines C D').length + 1 ≤ fuel) :
+    (hfuel : ((fileLines C D).drop 4).length + 1 ≤ fuel) (hfuel' : ((fileLines C D').drop 4).length + 1 ≤ fuel) :
     Tucan.molfile_reader.graph_from_molfile_text env fuel (join sep (fileLines C D ++ [[]])) =
       Tucan.molfile_reader.graph_from_molfile_text env fuel (join sep' (fileLines C D' ++ [[]])) := by
   rw [graph_from_molfile_text_render env fuel sep hsep C D hok hnb hA hB hfuel,
@@ -1512,21 +1522,182 @@ theorem sameIdentity_of_ctab (env : DepEnv) (C C' : Ctab) (hs : SameIdentityCtab
     rw [Ctab.joined_iff, Ctab.joined_iff]
     exact hs.bonds i j a b a' b' ha hb ha' hb'
 
+/-! ### validity of a connection table (the two validators of the top-level reader) -/
+
+/-- some atom line states a negative isotope mass (`MASS=` on a symbol other than D/T, whose mass is
+fixed) or a negative radical state -/
+def Ctab.NegMassRad (C : Ctab) : Prop := ∃ a ∈ C.atoms,
+  ((hydrogenIsotope a.sym).2 = 0 ∧ ∃ m, propInt a.props py!"MASS" = some m ∧ m < 0) ∨
+    ∃ r, propInt a.props py!"RAD" = some r ∧ r < 0
+/-- some bond line joins an atom to itself -/
+def Ctab.SelfBond (C : Ctab) : Prop := ∃ b ∈ C.bonds, intOf b.a1 = intOf b.a2
+
+theorem negAttr_attrsOf (env : DepEnv) (a : AtomLine) :
+    NegAttr (attrsOf env a) ↔ (((hydrogenIsotope a.sym).2 = 0 ∧ ∃ m, propInt a.props py!"MASS" = some m ∧ m < 0) ∨
+      ∃ r, propInt a.props py!"RAD" = some r ∧ r < 0) := by
+  rw [negAttr_iff]
+  simp only [attrsOf, atomAttrs, (mkAtomAttrs_get _ _ _ _ _ _ _ _).2.2.1, (mkAtomAttrs_get _ _ _ _ _ _ _ _).2.2.2]
+  apply or_congr
+  · by_cases h0 : (hydrogenIsotope a.sym).2 = 0
+    · simp only [h0, if_true, true_and]
+      cases propInt a.props py!"MASS" with
+      | none => simp
+      | some m => simp [isNeg_int]
+    · rcases Contracts.V3000.hydrogenIsotope_mass a.sym with h | h | h
+      · exact absurd h h0
+      · simp [h, isNeg_int]
+      · simp [h, isNeg_int]
+  · cases propInt a.props py!"RAD" with
+    | none => simp
+    | some r => simp [isNeg_int]
+
+theorem negMolecule_atomDict (env : DepEnv) (C : Ctab) : NegMolecule (C.atomDict env) ↔ C.NegMassRad := by
+  simp only [NegMolecule, Ctab.atomDict, Ctab.NegMassRad, List.mem_map]
+  constructor
+  · rintro ⟨p, ⟨a, ha, rfl⟩, hn⟩; exact ⟨a, ha, (negAttr_attrsOf env a).mp hn⟩
+  · rintro ⟨a, ha, hn⟩; exact ⟨_, ⟨a, ha, rfl⟩, (negAttr_attrsOf env a).mpr hn⟩
+
+theorem selfBonded_bondDict (C : Ctab) : SelfBonded C.bondDict ↔ C.SelfBond := by
+  simp only [SelfBonded, Ctab.SelfBond]
+  constructor
+  · rintro ⟨⟨u, v⟩, hb, he⟩
+    obtain ⟨b, hb, h1, h2⟩ := (C.mem_bondDict_keys u v).mp hb
+    simp only at he
+    exact ⟨b, hb, by omega⟩
+  · rintro ⟨b, hb, he⟩
+    exact ⟨(intOf b.a1 - 1, intOf b.a2 - 1), (C.mem_bondDict_keys _ _).mpr ⟨b, hb, rfl, rfl⟩, by simp [he]⟩
+
+/-- **accepted case**: a readable star-free connection table with no negative mass / radical value and no
+self-bond is read as the graph `graph_from_molecule` builds from its atom and bond dictionaries -/
+theorem fileMeaning_plain_ok (env : DepEnv) (C : Ctab) (h : C.Plain env) (hneg : ¬ C.NegMassRad) (hself : ¬ C.SelfBond) :
+    fileMeaning env C =
+      (do let gR ← Tucan.graph_utils.graph_from_molecule env (C.atomDict env) C.bondDict; pure gR.1) := by
+  unfold fileMeaning
+  rw [ctabMeaning_plain env C h]
+  exact molGraph_ok env _ (by rwa [negMolecule_atomDict]) (by rwa [selfBonded_bondDict])
+
+/-- **rejected case**: a negative `MASS=`/`RAD=` value or a bond from an atom to itself → `MolfileParserException` -/
+theorem fileMeaning_plain_reject (env : DepEnv) (C : Ctab) (h : C.Plain env) (hbad : C.NegMassRad ∨ C.SelfBond) :
+    fileMeaning env C = parserError := by
+  unfold fileMeaning
+  rw [ctabMeaning_plain env C h]
+  exact molGraph_reject env _ (by rwa [negMolecule_atomDict, selfBonded_bondDict])
+
+/-- **C07, the graph of a connection table**: one node per atom line, numbered in file order, carrying
+the attributes the line states (element, atomic number, coordinates, charge, isotope mass, radical state)
+plus the invariant code; two nodes are adjacent iff a bond line joins the two atom indices -/
+theorem fileMeaning_plain_graph (env : DepEnv) (C : Ctab) (h : C.Plain env) (hneg : ¬ C.NegMassRad) (hself : ¬ C.SelfBond) :
+    ∃ g, fileMeaning env C = .ok g ∧ g.WF ∧ g.nodeList = range (C.atoms.length : Int) ∧
+      (∀ (i : Nat) a, C.atoms[i]? = some a → g.node.get? (i : Int) = some (withCode (attrsOf env a))) ∧
+      (∀ (i j : Nat) a b, C.atoms[i]? = some a → C.atoms[j]? = some b →
+        ((j : Int) ∈ g.nbrs (i : Int) ↔ C.joined (intOf a.idx) (intOf b.idx))) := by
+  have hm := h.molOK
+  obtain ⟨g, R, hg, wg, ng, ag, bg⟩ :=
+    graph_from_molecule_general env (C.atomDict env) C.bondDict hm.wf hm.attrs_wf hm.z hm.ends
+  have hlen : (C.atomDict env).keys.length = C.atoms.length := by rw [Ctab.atomDict_keys]; simp
+  have hat : ∀ (i : Nat) a, C.atoms[i]? = some a →
+      (C.atomDict env).get? (intOf a.idx - 1) = some (attrsOf env a) ∧ intOf a.idx - 1 ∈ (C.atomDict env).keys ∧
+        (C.atomDict env).keys.idxOf (intOf a.idx - 1) = i := by
+    intro i a ha
+    have hi : i < (C.atomDict env).keys.length := by
+      rw [hlen]; exact (List.getElem?_eq_some_iff.mp ha).1
+    obtain ⟨k, v, hit, -, hget, hmem, hidx⟩ := general_at _ hm.wf i hi
+    simp only [Ctab.atomDict, List.getElem?_map, ha, Option.map_some, Option.some.injEq, Prod.mk.injEq] at hit
+    obtain ⟨rfl, rfl⟩ := hit
+    exact ⟨hget, hmem, hidx⟩
+  refine ⟨g, ?_, wg, by rw [ng, hlen], ?_, ?_⟩
+  · rw [fileMeaning_plain_ok env C h hneg hself, hg]; rfl
+  · intro i a ha
+    obtain ⟨hget, -, hidx⟩ := hat i a ha
+    have := ag _ _ hget
+    rwa [hidx] at this
+  · intro i j a b ha hb
+    obtain ⟨-, hma, hia⟩ := hat i a ha
+    obtain ⟨-, hmb, hib⟩ := hat j b hb
+    have := bg _ hma _ hmb
+    rw [hia, hib, Ctab.joined_iff] at this
+    exact this
+
+/-- validity is part of the identity data: if `C` is valid, so is every `C'` with the same identity data -/
+theorem valid_of_sameIdentityCtab (env : DepEnv) (C C' : Ctab) (h' : C'.Plain env) (hs : SameIdentityCtab C C')
+    (hneg : ¬ C.NegMassRad) (hself : ¬ C.SelfBond) : ¬ C'.NegMassRad ∧ ¬ C'.SelfBond := by
+  have hpos : ∀ a' ∈ C'.atoms, ∃ (i : Nat) (a : AtomLine), C.atoms[i]? = some a ∧ C'.atoms[i]? = some a' := by
+    intro a' ha'
+    obtain ⟨i, hi, rfl⟩ := List.getElem_of_mem ha'
+    have hi2 : i < C.atoms.length := by rw [hs.natoms]; exact hi
+    exact ⟨i, C.atoms[i], by simp [hi2], by simp [hi]⟩
+  constructor
+  · rintro ⟨a', ha', hbad⟩
+    obtain ⟨i, a, hia, hia'⟩ := hpos a' ha'
+    obtain ⟨hsym, hmass, hrad⟩ := hs.atoms i a a' hia hia'
+    exact hneg ⟨a, List.mem_of_getElem? hia, by rw [hsym, hmass, hrad]; exact hbad⟩
+  · rintro ⟨b', hb', he⟩
+    obtain ⟨a', ha', hidx⟩ := List.mem_map.mp (h'.bondEnds b' hb').1
+    obtain ⟨i, a, hia, hia'⟩ := hpos a' ha'
+    have hj' : C'.joined (intOf a'.idx) (intOf a'.idx) := ⟨b', hb', Or.inl ⟨hidx.symm, by rw [← he, hidx]⟩⟩
+    obtain ⟨b, hb, hbb⟩ := (hs.bonds i i a a a' a' hia hia hia' hia').mpr hj'
+    exact hself ⟨b, hb, by rcases hbb with ⟨h1, h2⟩ | ⟨h1, h2⟩ <;> rw [h1, h2]⟩
+
 /-- **deliverable 4 (C06, identity data only)**: two readable star-free connection tables with the same
-identity data are read as graphs with the same nodes, the same `element_symbol`, `atomic_number`,
-`mass`, `rad` and `invariant_code` at every node, and the same adjacency. Together with
-`graph_from_molfile_text_render` this holds for the graphs read from any renderings of the two tables. -/
+identity data, the first of which is valid (no negative mass / radical value, no self-bond), are read as
+graphs with the same nodes, the same `element_symbol`, `atomic_number`, `mass`, `rad` and
+`invariant_code` at every node, and the same adjacency. Together with `graph_from_molfile_text_render`
+this holds for the graphs read from any renderings of the two tables. -/
 theorem same_identity_ctab (env : DepEnv) (C C' : Ctab) (h : C.Plain env) (h' : C'.Plain env)
-    (hs : SameIdentityCtab C C') :
+    (hs : SameIdentityCtab C C') (hneg : ¬ C.NegMassRad) (hself : ¬ C.SelfBond) :
     ∃ g g', fileMeaning env C = .ok g ∧ fileMeaning env C' = .ok g' ∧
       g.nodeList = g'.nodeList ∧
       (∀ n, ∀ k ∈ idKeys ++ ["invariant_code"], g.attr n k = g'.attr n k) ∧
       (∀ x y, y ∈ g.nbrs x ↔ y ∈ g'.nbrs x) := by
   obtain ⟨g, R, g', R', e, e', hn, ha, hb⟩ :=
     same_identity_graph env _ _ _ _ h.molOK h'.molOK (sameIdentity_of_ctab env C C' hs)
+  obtain ⟨hneg', hself'⟩ := valid_of_sameIdentityCtab env C C' h' hs hneg hself
   refine ⟨g, g', ?_, ?_, hn, ha, hb⟩
-  · simp [fileMeaning, ctabMeaning_plain env C h, e]
-  · simp [fileMeaning, ctabMeaning_plain env C' h', e']
+  · rw [fileMeaning_plain_ok env C h hneg hself, e]; rfl
+  · rw [fileMeaning_plain_ok env C' h' hneg' hself', e']; rfl
+
+/-- the invalid case of deliverable 4: if `C` is rejected for a negative mass / radical value or a
+self-bond, so is every `C'` with the same identity data -/
+theorem same_identity_ctab_reject (env : DepEnv) (C C' : Ctab) (h : C.Plain env) (h' : C'.Plain env)
+    (hs : SameIdentityCtab C' C) (hbad : C.NegMassRad ∨ C.SelfBond) :
+    fileMeaning env C = parserError ∧ fileMeaning env C' = parserError := by
+  refine ⟨fileMeaning_plain_reject env C h hbad, fileMeaning_plain_reject env C' h' ?_⟩
+  by_contra hc
+  rw [not_or] at hc
+  obtain ⟨h1, h2⟩ := valid_of_sameIdentityCtab env C' C h hs hc.1 hc.2
+  rcases hbad with hb | hb
+  · exact h1 hb
+  · exact h2 hb
+
+/-! ### the V3000 reader on texts: accepted and rejected renderings -/
+
+/-- **C07 at the text level, accepted case**: every rendering (any header and comment lines, blank runs,
+trailing blanks, continuation cut points, further V30 lines, trailing lines, LF/CRLF/CR) of a readable
+star-free connection table without negative mass / radical values and self-bonds is read as the graph
+with one node per atom line in file order, carrying the stated attributes plus the invariant code, and
+one edge per bond line between the stated atoms -/
+theorem graph_from_molfile_text_render_ok (env : DepEnv) (fuel : Nat) (sep : Str) (hsep : IsSep sep)
+    (C : Ctab) (D : Dress) (hok : D.OK C) (hnb : D.NoBreaks C)
+    (hB : ∀ b ∈ C.bonds, b.Shape) (hfuel : ((fileLines C D).drop 4).length + 1 ≤ fuel)
+    (h : C.Plain env) (hneg : ¬ C.NegMassRad) (hself : ¬ C.SelfBond) :
+    ∃ g, Tucan.molfile_reader.graph_from_molfile_text env fuel (join sep (fileLines C D ++ [[]])) = .ok g ∧
+      g.WF ∧ g.nodeList = range (C.atoms.length : Int) ∧
+      (∀ (i : Nat) a, C.atoms[i]? = some a → g.node.get? (i : Int) = some (withCode (attrsOf env a))) ∧
+      (∀ (i j : Nat) a b, C.atoms[i]? = some a → C.atoms[j]? = some b →
+        ((j : Int) ∈ g.nbrs (i : Int) ↔ C.joined (intOf a.idx) (intOf b.idx))) := by
+  obtain ⟨g, hg, rest⟩ := fileMeaning_plain_graph env C h hneg hself
+  exact ⟨g, by rw [graph_from_molfile_text_render env fuel sep hsep C D hok hnb
+    (fun a ha => (h.wf a ha).shape) hB hfuel, hg], rest⟩
+
+/-- **rejected case**: every rendering of a readable star-free connection table with a negative `MASS=` /
+`RAD=` value or a bond from an atom to itself raises `MolfileParserException` -/
+theorem graph_from_molfile_text_render_reject (env : DepEnv) (fuel : Nat) (sep : Str) (hsep : IsSep sep)
+    (C : Ctab) (D : Dress) (hok : D.OK C) (hnb : D.NoBreaks C)
+    (hB : ∀ b ∈ C.bonds, b.Shape) (hfuel : ((fileLines C D).drop 4).length + 1 ≤ fuel)
+    (h : C.Plain env) (hbad : C.NegMassRad ∨ C.SelfBond) :
+    Tucan.molfile_reader.graph_from_molfile_text env fuel (join sep (fileLines C D ++ [[]])) = parserError := by
+  rw [graph_from_molfile_text_render env fuel sep hsep C D hok hnb (fun a ha => (h.wf a ha).shape) hB hfuel,
+    fileMeaning_plain_reject env C h hbad]
 
 /-! ## 5. the V2000 reader at the top level -/
 
@@ -1557,7 +1728,10 @@ theorem graph_from_molfile_text_v2000 (env : DepEnv) (fuel : Nat) (text : Str) (
     (hbl : ∀ l ∈ bondLines, lineKind l = none ∧ l ≠ endLine)
     (hitems : ∀ it ∈ items, it.Legal (atomDict attrs))
     (hwf : ∀ a ∈ attrs, a.WF) (hZ : ∀ a ∈ attrs, ∃ z, a.get? "atomic_number" = some z)
-    (hends : ∀ b ∈ bonds, b.1.1 ∈ range (attrs.length : Int) ∧ b.1.2 ∈ range (attrs.length : Int)) :
+    (hends : ∀ b ∈ bonds, b.1.1 ∈ range (attrs.length : Int) ∧ b.1.2 ∈ range (attrs.length : Int))
+    (hneg : ∀ (i : Nat) (hi : i < attrs.length), ∀ k ∈ ["mass", "rad"], ∀ v,
+      specGet (items.filterMap Item.parsed) i attrs[i] k = some v → isNeg v = false)
+    (hself : ∀ b ∈ bonds, b.1.1 ≠ b.1.2) :
     ∃ g, Tucan.molfile_reader.graph_from_molfile_text env fuel text = .ok g ∧ g.WF ∧
       g.nodeList = range (attrs.length : Int) ∧
       (∀ (i : Nat) (hi : i < attrs.length), ∃ new, g.node.get? (i : Int) = some (withCode new) ∧
@@ -1608,7 +1782,17 @@ theorem graph_from_molfile_text_v2000 (env : DepEnv) (fuel : Nat) (text : Str) (
     have h3 : (h0 :: h1 :: h2 :: counts :: (atomLines ++ (bondLines ++ (items.map Item.render ++ endLine :: post))))[3]? =
         some counts := rfl
     have hne : py!"V2000" ≠ py!"V3000" := by decide
-    simp only [h3, hver, hne, if_true, if_false, hr, ok_bind, hg, pure_eq_ok]
+    have hnn : ¬ NegMolecule r := by
+      rintro ⟨p, hp, k, hk, v, hv, hvn⟩
+      obtain ⟨i, hi, _, _, hs⟩ := hentry p hp
+      rw [hs] at hv
+      rw [hneg i hi k hk v hv] at hvn; cases hvn
+    have hns : ¬ SelfBonded (Dict.ofPairs bonds : Dict (Int × Int) Attrs) := by
+      rintro ⟨b, hb, he⟩
+      obtain ⟨q, hq, rfl⟩ := (hbk b).mp hb
+      exact hself q hq he
+    simp only [h3, hver, hne, if_true, if_false, hr, ok_bind]
+    rw [molGraph_ok env _ hnn hns, hg]; rfl
   · intro i hi
     obtain ⟨new, hnew, _, hs⟩ := hget i hi
     refine ⟨new, ?_, hs⟩
@@ -1643,6 +1827,46 @@ theorem graph_from_molfile_text_v2000 (env : DepEnv) (fuel : Nat) (text : Str) (
       · rintro ⟨b, hb, e | e⟩
         · exact absurd (by have := (hends b hb).1; rw [e] at this; exact this) hx
         · exact absurd (by have := (hends b hb).2; rw [e] at this; exact this) hx
+
+open Contracts.V2000 (Item endLine lineKind specGet atomDict fieldInt field) in
+/-- the rejecting counterpart: a negative isotope mass or radical state after the property block, or a
+bond line from an atom to itself → `MolfileParserException` -/
+theorem graph_from_molfile_text_v2000_reject (env : DepEnv) (fuel : Nat) (text : Str) (h0 h1 h2 counts : Str)
+    (atomLines bondLines : List Str) (attrs : List Attrs) (bonds : List ((Int × Int) × Attrs))
+    (items : List Item) (post : List Str)
+    (hlines : splitlines text =
+      h0 :: h1 :: h2 :: counts :: (atomLines ++ (bondLines ++ (items.map Item.render ++ endLine :: post))))
+    (hver : lastWord counts = py!"V2000")
+    (hna : fieldInt (field counts 0 3) = .ok atomLines.length)
+    (hnb : fieldInt (field counts 3 3) = .ok bondLines.length)
+    (hnl : fieldInt (field counts 6 3) = .ok 0)
+    (hatoms : List.Forall₂ (fun l a => Tucan.molfile_v2000_reader._parse_atom_line env l = .ok a) atomLines attrs)
+    (hbonds : List.Forall₂ (fun l b => Tucan.molfile_v2000_reader._parse_bond_line env l (atomDict attrs) = .ok b)
+      bondLines bonds)
+    (hbl : ∀ l ∈ bondLines, lineKind l = none ∧ l ≠ endLine)
+    (hitems : ∀ it ∈ items, it.Legal (atomDict attrs))
+    (hbad : (∃ (i : Nat) (hi : i < attrs.length), ∃ k ∈ ["mass", "rad"], ∃ v,
+        specGet (items.filterMap Item.parsed) i attrs[i] k = some v ∧ isNeg v = true) ∨
+      ∃ b ∈ bonds, b.1.1 = b.1.2) :
+    Tucan.molfile_reader.graph_from_molfile_text env fuel text = parserError := by
+  obtain ⟨r, hr, hkeys, hget⟩ := Contracts.V2000.graph_attributes_from_molfile_v2000_ok env h0 h1 h2 counts
+    atomLines bondLines attrs bonds items post hna hnb hnl hatoms hbonds hbl hitems
+  rw [graph_from_molfile_text_eq]
+  unfold readSpec
+  rw [hlines]
+  have h3 : (h0 :: h1 :: h2 :: counts :: (atomLines ++ (bondLines ++ (items.map Item.render ++ endLine :: post))))[3]? =
+      some counts := rfl
+  have hne : py!"V2000" ≠ py!"V3000" := by decide
+  simp only [h3, hver, hne, if_true, if_false, hr, ok_bind]
+  apply molGraph_reject
+  rcases hbad with ⟨i, hi, k, hk, v, hv, hvn⟩ | ⟨b, hb, he⟩
+  · left
+    obtain ⟨new, hnew, _, hs⟩ := hget i hi
+    exact ⟨(↑i, new), Dict.mem_items_of_get? hnew, k, hk, v, by rw [hs, hv], hvn⟩
+  · right
+    refine ⟨b.1, ?_, he⟩
+    rw [Dict.ofPairs_eq_updatePairs, Dict.mem_keys_updatePairs]
+    exact Or.inr (List.mem_map_of_mem hb)
 
 /-! ## sanity checks of the specs on concrete data, and axioms -/
 
@@ -1683,7 +1907,20 @@ example : fileLines exampleCtab exampleDress =
       py!"M  V30 BEGIN BOND", py!"M  V30 1 2 7 3", py!"M  V30 END BOND", py!"M  V30 END CTAB", py!"M  END"] := by
   decide
 
+example : NegAttr ⟨[("mass", Val.int (-3))]⟩ := by decide
+example : ¬ NegAttr ⟨[("mass", Val.int 13), ("rad", Val.int 2), ("chg", Val.int (-1))]⟩ := by decide
+example (env : DepEnv) : Tucan.molfile_reader._validate_bonds env ⟨[((0, 1), Dict.empty), ((2, 2), Dict.empty)]⟩ = parserError := by
+  rw [_validate_bonds_eq]; decide
+
+#print axioms _validate_atom_attributes_eq
+#print axioms _validate_bonds_eq
 #print axioms graph_from_molfile_text_eq
+#print axioms fileMeaning_plain_graph
+#print axioms fileMeaning_plain_reject
+#print axioms graph_from_molfile_text_render_ok
+#print axioms graph_from_molfile_text_render_reject
+#print axioms same_identity_ctab_reject
+#print axioms graph_from_molfile_text_v2000_reject
 #print axioms splitlines_join
 #print axioms splitlines_crlf
 #print axioms tokens_lineText
